@@ -770,6 +770,13 @@ def run(res, tier):
     })
     res.notes.append('documentation-only findings are listed in notes/C17.md: division by zero for configuration value 0 (F2); '
                      'D8 / D12 (scheduler crashes) were fixed in /repo 33a96a1 and are no longer tolerated anywhere in this check')
+    # every open finding of this property is announced on every run: F1 depends on what the allocator hands out, so a run
+    # may not re-exhibit it; the line then says so (it suppresses nothing: suppression happens in report() by `match` only)
+    for e in open_findings():
+        if e.get('id') not in seen_findings:
+            seen_findings.add(e.get('id'))
+            res.known_finding(e['what'] + ' [this run: not re-exhibited: %d of %d configurations differed without the address '
+                              'quarantine (%d runs)]' % (len(raw_diff), len(raw_lines), raw_runs))
 
 
 def replay(path):
